@@ -39,7 +39,52 @@ func init() {
 	})
 }
 
+// checkAttachesAuthorisedBridge: the bridge a connection is attached to is the very object the caller
+// authorised the connection for - handleExistingBridge operates on its bridge parameter, never on a
+// bridge it looks up again by tunnel id (between the authorisation and a second lookup the id may have
+// been released and registered again for another mapping).
+func checkAttachesAuthorisedBridge(r *Report) {
+	heb := r.P.Fn(sessPkg, "SessionManager.handleExistingBridge")
+	if heb == nil {
+		return // its absence is reported by R-C04-1 (frozen caller set)
+	}
+	var bp *ssa.Parameter
+	for _, p := range heb.Params {
+		if _, n := recvTypeName(p.Type()); n == "TunnelBridge" || n == "Bridge" {
+			bp = p
+		}
+	}
+	n := 0
+	for _, u := range WithAnon(heb) {
+		Instrs(u, func(in ssa.Instruction) {
+			ci, ok := in.(ssa.CallInstruction)
+			if !ok {
+				return
+			}
+			c := CalleeOf(ci)
+			if c.Recv != "Bridge" && c.Recv != "TunnelBridge" {
+				return
+			}
+			if !strings.HasPrefix(c.Name, "Set") && !strings.HasPrefix(c.Name, "Attach") && c.Name != "NotifyTargetReady" {
+				return
+			}
+			n++
+			rv := Recv(ci)
+			good := false
+			if bp != nil && rv != nil {
+				o := originSummary(rv)
+				good = o == "param:"+canonParamName(bp) || o == "freevar:"+canonParamName(bp)
+			}
+			r.Ob("R-C04-1", CallPos(ci), good, "the bridge "+c.Name+" is applied to is the one the caller authorised this connection for (the bridge parameter), not one looked up again by tunnel id", "handleExistingBridge", "attaches-authorised-bridge:"+c.Name)
+		})
+	}
+	if n == 0 {
+		r.Fail("R-C04-1", heb.Pos(), "no attach call (Set*/Attach* on the bridge) found in handleExistingBridge", "handleExistingBridge", "attaches-authorised-bridge:anchor")
+	}
+}
+
 func runC04(r *Report) {
+	checkAttachesAuthorisedBridge(r)
 	hto := r.need("R-C04-1", sessPkg, "SessionManager.handleTunnelOpen")
 	if hto == nil {
 		return
